@@ -1,17 +1,272 @@
-"""Forced thread interleaving on the REAL Worker: `_process_await` (main thread)
-is interrupted by `_handle_result` (incoming thread) right after
-`box.dest_addr = task.return_address` - a legal GIL switch point.  The
-interleaving is the one of `FineWake.raceSchedule` (Props/C07,
-`C07_fine_double_wake_witness`); it is produced with `sys.settrace`, no source
-edit."""
+"""Line-level tie of `Worker._process_await` (main thread) || `Worker._handle_result`
+(incoming thread) to the source-line model `lean/BqVerif/Model/FineWake.lean`.
+
+1. `skeleton()` - AST query on the LIVE source: the statements of the two functions
+   are exactly the statements the model has one step for, in the same order, and
+   every one of them is inside `with self._mailbox_mutex:` (-> `locked`, the code as
+   it is since the maintainer's fix) or none of them is (-> the pre-fix variant).
+
+2. `run_schedule(bits)` - the two functions run in two REAL threads on a REAL
+   `Worker`; a scheduler parks each thread in front of every model statement
+   (`sys.settrace` line events, no source edit) and in front of every acquisition
+   of the mutex (the worker's `_mailbox_mutex` is an instrumented lock) and lets
+   exactly the thread named by the next schedule bit perform one step.  A thread
+   that wants the mutex while the other holds it does not move (its bit is a
+   no-op, exactly like in the model) - a blocked thread can therefore never
+   deadlock the harness; when the bits are used up the scheduler completes the run
+   (incoming thread first when it can move).  Every parked state (mailboxes, task
+   flags, ready queue, lock holder) is compared with the model state before the
+   same step (`bqdriver runtime`, command `fine`).
+
+3. Oracle, independent of the model: the awaiting task returns exactly once with
+   the two delivered values, no ERROR leaves the worker, no thread crashes, the
+   task's address is never in the ready queue twice.
+
+Schedules: one shortest schedule per reachable model state (`fine-paths`),
+plus the schedule of the repaired finding (`RACE_BITS`).
+"""
 from __future__ import annotations
 
+import ast
 import inspect
 import sys
-from threading import Lock
+import textwrap
+import threading
+import time
+
+MAIN, INC = 1, 0
+
+PA_EXPECT = [
+    ('pre', "if not isinstance(future, RuntimeFuture)"),
+    (0, 'if future.mailbox_id not in self._mailboxes'),
+    (1, 'box = self._mailboxes[future.mailbox_id]'),
+    (2, 'box.dest_addr = task.return_address'),
+    (3, 'task.desired_box_id = future.mailbox_id'),
+    (4, 'task.wake_on_next = future._next_flag'),
+    (5, 'if box.ready'),
+    ('in', 'self._ready_task_ids.put(task.return_address)'),
+]
+HR_EXPECT = [
+    ('pre', 'assert result.return_address.worker_id == self._id'),
+    ('pre', 'mailbox_id = result.return_address.mailbox_index'),
+    (0, 'if mailbox_id not in self._mailboxes'),
+    ('in', 'return'),
+    (1, 'box = self._mailboxes[mailbox_id]'),
+    (2, 'box.deposit_result(result)'),
+    (3, 'if box.has_task_waiting'),
+    ('in', 'assert box.dest_addr is not None'),
+    (4, 'task = self._tasks[box.dest_addr]'),
+    (5, 'if task.wake_on_next or box.ready'),
+    (6, 'self._ready_task_ids.put(box.dest_addr)'),
+    (7, 'box.dest_addr = None'),
+]
+MUTEX = 'self._mailbox_mutex'
+
+# the interleaving of the repaired finding (FineWake.raceSchedule, pre-fix
+# variant): the incoming thread handles the result of f0 right after
+# `box.dest_addr = task.return_address`
+RACE_BITS = '111' + '0' * 8 + '111' + '1' + '1' * 6 + '1'
 
 
-def double_wake_replay() -> dict:
+def _flatten(stmts, locked, out):
+    """Statements in source order; `with` blocks are entered (their statements
+    are marked with the context expression), `if` heads are listed with their
+    test only and their bodies follow."""
+    for st in stmts:
+        if isinstance(st, ast.With):
+            ctx = ','.join(ast.unparse(i.context_expr) for i in st.items)
+            out.append(('with', ctx, st.lineno, locked))
+            _flatten(st.body, ctx, out)
+        elif isinstance(st, ast.If):
+            out.append(('stmt', 'if ' + ast.unparse(st.test), st.lineno, locked))
+            _flatten(st.body, locked, out)
+            if st.orelse:
+                out.append(('stmt', 'else', st.lineno, locked))
+                _flatten(st.orelse, locked, out)
+        elif isinstance(st, ast.Raise):
+            out.append(('raise', ast.unparse(st), st.lineno, locked))
+        elif isinstance(st, ast.Expr) and isinstance(st.value, ast.Constant):
+            pass                                   # docstring
+        else:
+            out.append(('stmt', ast.unparse(st), st.lineno, locked))
+
+
+def _match(fn, expect):
+    src, start = inspect.getsourcelines(fn)
+    tree = ast.parse(textwrap.dedent(''.join(src)))
+    flat = []
+    _flatten(tree.body[0].body, None, flat)
+    got = [(k, t, ln, lk) for (k, t, ln, lk) in flat if k != 'with'
+           and k != 'raise']
+    withs = [(t, ln) for (k, t, ln, lk) in flat if k == 'with']
+    problems = []
+    lines = {}
+    cover = {}
+    if len(got) != len(expect) or any(
+            g[1] != e[1] for g, e in zip(got, expect)):
+        problems.append(
+            f'{fn.__name__}: statements {[g[1] for g in got]} are not the '
+            f'statements of the model {[e[1] for e in expect]}')
+    else:
+        for g, e in zip(got, expect):
+            if isinstance(e[0], int):
+                lines[start + g[2] - 1] = e[0]
+                cover[e[0]] = g[3]
+    for t, ln in withs:
+        if t != MUTEX:
+            problems.append(f'{fn.__name__}: unexpected `with {t}`')
+    return {'lines': lines, 'cover': cover, 'problems': problems,
+            'withs': withs}
+
+
+def skeleton() -> dict:
+    """AST query on the live source (see module docstring)."""
+    from bqskit.runtime.worker import Worker
+    pa = _match(Worker._process_await, PA_EXPECT)
+    hr = _match(Worker._handle_result, HR_EXPECT)
+    problems = pa['problems'] + hr['problems']
+    cov = list(pa['cover'].values()) + list(hr['cover'].values())
+    locked = None
+    if not problems:
+        if all(c == MUTEX for c in cov):
+            locked = True
+        elif all(c is None for c in cov):
+            locked = False
+        else:
+            problems.append(
+                'the mutex covers only part of the model statements: '
+                f'_process_await {pa["cover"]}, _handle_result {hr["cover"]}')
+    init_has = '_mailbox_mutex' in inspect.getsource(Worker.__init__)
+    if locked and not init_has:
+        problems.append('Worker.__init__ does not create _mailbox_mutex')
+    return {'ok': not problems, 'locked': locked, 'problems': problems,
+            'pa_lines': pa['lines'], 'hr_lines': hr['lines']}
+
+
+class Abort(BaseException):
+    pass
+
+
+class Sched:
+    """Hands the baton to the thread named by the next bit; see module doc."""
+
+    def __init__(self, bits, snapshot, can_loop, deadline_s=30.0):
+        self.bits = [int(b) for b in bits]
+        self.idx = 0
+        self.cv = threading.Condition()
+        self.state = {MAIN: 'run', INC: 'run'}
+        self.at = {MAIN: None, INC: None}
+        self.holder = None
+        self.log = []            # (bit, label, snapshot, holder, moved)
+        self.abort = None
+        self.snapshot = snapshot
+        self.can_loop = can_loop
+        self.deadline = time.time() + deadline_s
+        self.ident = {}
+
+    def me(self):
+        return self.ident[threading.get_ident()]
+
+    def can_move(self, t):
+        if self.state[t] != 'wait':
+            return False
+        lab = self.at[t][0]
+        if lab == 'acq':
+            return self.holder is None
+        if lab == 'loop':
+            return self.can_loop()
+        return True
+
+    def next_bit(self):
+        if self.idx < len(self.bits):
+            return self.bits[self.idx]
+        if self.can_move(INC):
+            return INC
+        if self.can_move(MAIN):
+            return MAIN
+        return None
+
+    def checkpoint(self, label):
+        me = self.me()
+        other = 1 - me
+        with self.cv:
+            self.at[me] = label
+            self.state[me] = 'wait'
+            self.cv.notify_all()
+            while True:
+                if self.abort:
+                    raise Abort(self.abort)
+                if time.time() > self.deadline:
+                    self.abort = 'timeout'
+                    self.cv.notify_all()
+                    raise Abort('timeout')
+                if self.state[other] == 'run':
+                    self.cv.wait(0.05)
+                    continue
+                b = self.next_bit()
+                if b is None:
+                    self.abort = 'stuck'
+                    self.cv.notify_all()
+                    raise Abort('stuck')
+                if b == me:
+                    moved = self.can_move(me)
+                    self.log.append((me, label, self.snapshot(), self.holder,
+                                     moved))
+                    self.idx += 1
+                    self.cv.notify_all()
+                    if moved:
+                        self.state[me] = 'run'
+                        if label[0] == 'acq':
+                            self.holder = me
+                        return
+                    continue
+                if self.state[other] == 'done':
+                    self.log.append((other, ('done',), self.snapshot(),
+                                     self.holder, False))
+                    self.idx += 1
+                    continue
+                self.cv.wait(0.05)
+
+    def release(self):
+        with self.cv:
+            self.holder = None
+            self.cv.notify_all()
+
+    def finish(self):
+        me = self.me()
+        with self.cv:
+            self.state[me] = 'done'
+            self.cv.notify_all()
+
+
+class SchedLock:
+    """`self._mailbox_mutex` of the worker under test: acquiring is a scheduled
+    step; a real lock underneath asserts mutual exclusion."""
+
+    def __init__(self, sched, cur):
+        self.sched, self.cur = sched, cur
+        self.real = threading.Lock()
+
+    def acquire(self, blocking=True, timeout=-1):
+        self.sched.checkpoint(('acq', self.cur.get(self.sched.me())))
+        ok = self.real.acquire(False)
+        assert ok, 'scheduler granted a held lock'
+        return True
+
+    def release(self):
+        self.real.release()
+        self.sched.release()
+
+    def __enter__(self):
+        self.acquire()
+        return self
+
+    def __exit__(self, *a):
+        self.release()
+
+
+def run_schedule(bits: str, sk: dict | None = None) -> dict:
+    """One scheduler-controlled run on a fresh real Worker."""
     from harness import runtime_sim as rs
     import bqskit.runtime.worker as wmod
     from bqskit.runtime.worker import Worker
@@ -19,6 +274,8 @@ def double_wake_replay() -> dict:
     from bqskit.runtime.address import RuntimeAddress
     from bqskit.runtime.result import RuntimeResult
     from bqskit.runtime.message import RuntimeMessage as M
+    sk = sk or skeleton()
+    out = {'bits_given': bits, 'locked': sk['locked']}
 
     class Conn:
         def __init__(self):
@@ -40,56 +297,194 @@ def double_wake_replay() -> dict:
     w._mailbox_counter = 0
     w._cache = {}
     w.most_recent_read_submit = None
-    w.read_receipt_mutex = Lock()
-    wmod._worker = w
-    root = RuntimeTask((_parent, (), {}), RuntimeAddress(-1, 0, 0), 0, tuple())
-    w._add_task(root)
-    src, start = inspect.getsourcelines(Worker._process_await)
-    hits = [i for i, l in enumerate(src)
-            if 'task.desired_box_id = future.mailbox_id' in l]
-    out = {'line_found': bool(hits)}
-    if not hits:
-        return out
-    target = start + hits[0]      # the line AFTER `box.dest_addr = ...`
-    fired = [False]
+    w.read_receipt_mutex = threading.Lock()
+    root_addr = RuntimeAddress(-1, 0, 0)
+    root = RuntimeTask((_parent, (), {}), root_addr, 0, tuple())
+    boxes = {}
+
+    def sbox(m):
+        b = boxes.get(m)
+        if b is None:
+            b = w._mailboxes.get(m)
+        if b is None:
+            return '---'
+        boxes[m] = b
+        return (f'{int(m in w._mailboxes)}{b.num_results}'
+                f'{int(b.dest_addr is not None)}')
+
+    def nready():
+        return sum(1 for a in list(w._ready_task_ids.queue) if a == root_addr)
+
+    def snapshot():
+        d = root.desired_box_id
+        return (f'{sbox(0)} {sbox(1)} {"-" if d is None else d} '
+                f'{int(root.wake_on_next)} {nready()}')
+
+    sched = Sched(bits, snapshot, lambda: w._ready_task_ids.qsize() > 0)
+    cur = {}                       # thread -> mailbox it is working on
+    w._mailbox_mutex = SchedLock(sched, cur)
+    pa_code = Worker._process_await.__code__
+    hr_code = Worker._handle_result.__code__
+    pa_lines, hr_lines = sk['pa_lines'], sk['hr_lines']
 
     def tracer(frame, event, arg):
-        if frame.f_code is Worker._process_await.__code__:
-            def local(frame, event, arg):
-                if event == 'line' and frame.f_lineno == target \
-                        and not fired[0]:
-                    fired[0] = True
-                    # the incoming thread runs here: RESULT for mailbox 0
-                    w._handle_result(RuntimeResult(
-                        RuntimeAddress(0, 0, 0), 'r0', 1))
-                return local
+        code = frame.f_code
+        if code is pa_code:
+            lines, kind = pa_lines, 'pa'
+        elif code is hr_code:
+            lines, kind = hr_lines, 'hr'
+        else:
+            return None
+        if kind == 'pa':
+            cur[sched.me()] = frame.f_locals['future'].mailbox_id
+        else:
+            cur[sched.me()] = \
+                frame.f_locals['result'].return_address.mailbox_index
+
+        def local(frame, event, arg):
+            if event == 'line' and frame.f_lineno in lines:
+                sched.checkpoint(
+                    (kind, lines[frame.f_lineno], cur[sched.me()]))
             return local
-        return None
+        return local
+
+    crash = {}
+
+    def inc_prog():
+        sched.ident[threading.get_ident()] = INC
+        sys.settrace(tracer)
+        try:
+            for m in (0, 1):
+                w._handle_result(RuntimeResult(
+                    RuntimeAddress(0, m, 0), f'r{m}', 1))
+        except Abort:
+            pass
+        except BaseException as e:      # the incoming thread dies
+            crash['inc'] = repr(e)
+        finally:
+            sys.settrace(None)
+            sched.finish()
+
+    def root_msgs():
+        res, errs = [], []
+        for m in w._conn.sent:
+            if m[0] == M.RESULT and m[1].return_address == root_addr:
+                res.append(m[1].result)
+            elif m[0] == M.ERROR:
+                errs.append(m[1][1] if isinstance(m[1], tuple) else str(m[1]))
+        return res, errs
+
+    sched.ident[threading.get_ident()] = MAIN
+    wmod._worker = w
+    w._add_task(root)
+    th = threading.Thread(target=inc_prog, daemon=True)
     old = sys.gettrace()
-    sys.settrace(tracer)
+    k = 0
     try:
-        w._try_step_next_ready_task()     # body runs to `await f0`, racy await
+        sys.settrace(tracer)
+        th.start()
+        first = True
+        while True:
+            if not first:
+                sched.checkpoint(('loop', k))
+            first = False
+            w._try_step_next_ready_task()
+            k = root.desired_box_id if root.desired_box_id is not None else k
+            res, errs = root_msgs()
+            if res or errs:
+                break
+    except Abort as e:
+        out['abort'] = str(e)
+    except rs.Block:
+        out['abort'] = 'main-blocked-unexpectedly'
     finally:
         sys.settrace(old)
-    out['fired'] = fired[0]
-    out['ready_after_racy_await'] = w._ready_task_ids.qsize()
-    try:
-        w._try_step_next_ready_task()     # first wake: consumes f0, awaits f1
-        out['ready_after_first_wake'] = w._ready_task_ids.qsize()
-        w._try_step_next_ready_task()     # stale second wake
-    except rs.Block:
-        out['blocked'] = True
-    errs = [m[1][1] for m in w._conn.sent
-            if m[0] == M.ERROR and isinstance(m[1], tuple)]
+        sched.finish()
+        th.join(10.0)
+        if th.is_alive():
+            with sched.cv:
+                sched.abort = sched.abort or 'incoming-thread-hung'
+                sched.cv.notify_all()
+            th.join(5.0)
+            out['abort'] = out.get('abort') or 'incoming-thread-hung'
+        wmod._worker = None
+    res, errs = root_msgs()
+    final = snapshot()
+    log = sched.log
+    out['bits'] = ''.join(str(b) for b, *_ in log)
+    out['labels'] = [(b, lab, moved) for b, lab, _, _, moved in log]
+    out['snaps'] = [s for _, _, s, _, _ in log] + [final]
+    out['holders'] = [h for _, _, _, h, _ in log] + [sched.holder]
+    out['blocked_on_lock'] = sum(
+        1 for b, lab, _, _, moved in log if lab[0] == 'acq' and not moved)
+    out['max_ready'] = max(int(s.split()[-1]) for s in out['snaps'])
+    out['results'] = [repr(r) for r in res]
     out['errors'] = [e[-300:] for e in errs]
+    out['inc_crash'] = crash.get('inc')
     out['assertion_error'] = any('AssertionError' in e for e in errs)
-    wmod._worker = None
+    ok = (res == [('r0', 'r1')] and not errs and not crash
+          and out['max_ready'] <= 1 and 'abort' not in out)
+    out['ok'] = ok
     for t in list(w._tasks.values()):
         try:
             t.coro.close()
         except Exception:
             pass
     return out
+
+
+def expected_pcs(run: dict) -> list:
+    """(thread, model pc string or set of admissible ones) per logged step."""
+    out = []
+    for b, lab, moved in run['labels']:
+        if lab[0] == 'acq':
+            pc = f'pa0.{lab[1]}' if b == MAIN else f'hr0.{lab[1]}'
+        elif lab[0] == 'pa':
+            pc = f'pa{lab[1]}.{lab[2]}'
+        elif lab[0] == 'hr':
+            pc = f'hr{lab[1]}.{lab[2]}'
+        elif lab[0] == 'loop':
+            pc = f'loop{lab[1]}'
+        else:
+            pc = ('finished', 'failed') if b == MAIN else ('done', 'crashed')
+        out.append((b, pc))
+    return out
+
+
+def compare_with_model(run: dict, model_line: str) -> str | None:
+    """Model states (before every step, then the final one) against the parked
+    states of the real run.  Returns a description of the first difference."""
+    states = model_line.split(' ;; ')
+    if len(states) != len(run['snaps']):
+        return f'model printed {len(states)} states for {len(run["snaps"])}'
+    hold = {None: '-', MAIN: 'M', INC: 'I'}
+    for i, st in enumerate(states):
+        f = st.split()
+        mpc, ipc, lock = f[0], f[1], f[2]
+        shared = ' '.join(f[3:8])
+        if shared != run['snaps'][i] or lock != hold[run['holders'][i]]:
+            return (f'step {i}: model `{st}` vs real `{run["snaps"][i]}` '
+                    f'lock {hold[run["holders"][i]]}')
+        if i < len(run['labels']):
+            b, pc = expected_pcs(run)[i]
+            got = mpc if b == MAIN else ipc
+            if (got != pc) if isinstance(pc, str) else (got not in pc):
+                return (f'step {i}: thread {"main" if b else "incoming"} is '
+                        f'at {pc} in the real run, at {got} in the model')
+    last = states[-1].split()
+    real_end = ('failed' if run['errors'] else 'finished' if run['results']
+                else 'open')
+    if real_end != 'open' and last[0] != real_end:
+        return f'end: real run {real_end}, model {last[0]}'
+    return None
+
+
+def double_wake_replay() -> dict:
+    """The schedule of the repaired finding on the live code."""
+    r = run_schedule(RACE_BITS)
+    return {k: r[k] for k in ('locked', 'bits', 'blocked_on_lock', 'max_ready',
+                              'results', 'errors', 'assertion_error', 'ok')
+            if k in r} | ({'abort': r['abort']} if 'abort' in r else {})
 
 
 def _child(x):
